@@ -913,3 +913,53 @@ def loop_fn_prog(rng):
             L += ["lp%d:" % i, rng.choice(["mv a0, t0", "add a0, a0, t0"]), "addi t0, t0, -1", "bnez t0, lp%d" % i]
         L += ["ret"]
     return "\n".join(L) + "\n"
+
+
+def stopping_tree(rng):
+    """a two-file program whose analysis is stopped by ONE condition; -> (files, names, kind, where): `names` are the
+    labels at fault, `where` the files that hold an occurrence at which the error may be located"""
+    kind = rng.choice(["undefined-two-files", "undefined-two-files", "undefined-lib", "noreturn-lib", "duplicate-lib", "duplicate-across", "eof-label-lib"])
+    pad_a, pad_b = rng.randrange(0, 4), rng.randrange(0, 6)
+    pool = ["alpha_missing", "zeta_missing", "mid_gone", "Zed", "a_1", "nowhere", "B", "zz"]
+    n1, n2 = rng.sample(pool, 2)
+    use = lambda n: rng.choice(["j %s", "bnez a0, %s", "la a1, %s", "jal %s"]) % n
+    main_body = [" li a0, 1"] * pad_a + [" jal helper"]
+    lib_body = ["helper:"] + [" addi a0, a0, 1"] * pad_b
+    lib_tail = [" ret"]
+    names, where = [], []
+    if kind == "undefined-two-files":
+        main_body.append(" " + use(n1))
+        lib_body.append(" " + use(n2))
+        names, where = [n1, n2], ["a.s", "lib.s"]
+    elif kind == "undefined-lib":
+        lib_body.append(" " + use(n1))
+        if rng.random() < 0.5:
+            lib_body.append(" " + use(n2))
+            names = [n1, n2]
+        else:
+            names = [n1]
+        where = ["lib.s"]
+    elif kind == "noreturn-lib":
+        lib_tail = rng.choice([[" li a7, 10", " ecall"], [" j helper"], ["spin:", " j spin"]])
+        names, where = ["helper"], ["lib.s"]
+    elif kind == "duplicate-lib":
+        lib_body += ["%s:" % n1, " addi a0, a0, 2", "%s:" % n1]
+        names, where = [n1], ["lib.s"]
+    elif kind == "duplicate-across":
+        main_body += ["%s:" % n1, " addi a0, a0, 3"]
+        lib_body += ["%s:" % n1]
+        names, where = [n1], ["a.s", "lib.s"]
+    else:
+        lib_body.append(" " + rng.choice(["j %s", "bnez a0, %s"]) % n1)
+        lib_tail = [" ret", "%s:" % n1]
+        names, where = [n1], ["lib.s"]
+    inc = ' .include "lib.s"'
+    tail = [" li a7, 10", " ecall"]
+    if kind == "duplicate-across":
+        fa = ["main:"] + main_body + tail + [inc]
+    else:
+        fa = ["main:"] + main_body + tail + [""] * rng.randrange(0, 3) + [inc]
+    lead = [""] * rng.randrange(0, 3)
+    fb = lead + lib_body + lib_tail
+    nl = lambda L: "\n".join(L) + ("\n" if rng.random() < 0.8 else "")
+    return [("a.s", nl(fa)), ("lib.s", nl(fb))], names, kind, where
